@@ -561,7 +561,10 @@ Variable blcb : nat -> list hold -> lock -> bool.
 Hypothesis blcb_ok : forall c H l, blcb c H l = true -> blc c H l.
 
 Definition blk_of (o : apiop) : list hold -> lock -> Prop :=
-  match o with AAcquire c _ _ => blc c | _ => fun _ _ => False end.   (* only acquisitions wait *)
+  match o with
+  | AAcquire c _ f => if blocking_flavour f then blc c else fun _ _ => False   (* only blocking acquisitions wait *)
+  | _ => fun _ _ => False
+  end.
 
 Fixpoint ascb (c : nat) (m : mode) (H : list hold) (ls : list lk) : bool :=
   match ls with [] => true | x :: r => blcb c H (snd x) && ascb c m (hold_of m x :: H) r end.
@@ -606,7 +609,7 @@ Proof.
   unfold env_okb, env_ok, coll. intros E c s Hc. rewrite forallb_forall in E.
   specialize (E (c, s) (nth_error_combine_seq (e_colls e) 0 c s Hc)). cbn [fst snd] in E.
   apply andb_true_iff in E. destruct E as [E E3].
-  apply andb_true_iff in E. destruct E as [E1 E2]. split; [exact E1|]. intros [|] f; cbn [blk_of]; now apply alg_okb_ok.
+  apply andb_true_iff in E. destruct E as [E1 E2]. split; [exact E1|]. intros [|] f BF; cbn [blk_of]; rewrite BF; now apply alg_okb_ok.
 Qed.
 
 Definition is_nilb {A} (l : list A) : bool := match l with [] => true | _ => false end.
@@ -663,7 +666,7 @@ Definition wfB (b : bscen) : bool :=
   wfB_gen (fun _ => rank_okb (sc_nlocks (bs_sc b)) (rk_of (bs_sc b))) b.
 
 Lemma blk_rank nl rk o H l : blk_of (fun _ => rank_ok nl rk) o H l -> rank_ok nl rk H l.
-Proof. destruct o; cbn [blk_of]; tauto. Qed.
+Proof. destruct o as [| | |c m f| | | | | | | | |]; cbn [blk_of]; try tauto. destruct (blocking_flavour f); tauto. Qed.
 
 Theorem every_schedule_stable_g yr pb b sched :
   wfB b = true ->
@@ -936,4 +939,24 @@ Proof.
   destruct (guard lc') as [g|] eqn:G.
   - destruct T as [_ [_ E]]. exact E.
   - destruct T as [_ E]. destruct HG as [HK|NG]; [now apply E|contradiction].
+Qed.
+
+(* ---------------------------------------------------------------- who can wait at all (C04, C17 on every schedule) *)
+(* in every state of every schedule, a thread that is parked on a blocking raw acquisition is inside a BLOCKING acquisition
+   call (lock / read / write, scoped_lock / scoped_read): a try_* or scoped_try_* call never waits, and neither does any
+   call that is not an acquisition (key operations, guard accesses, drops and unlocks, panics, is_poisoned, clear_poison,
+   Debug formatting) *)
+Theorem every_schedule_only_blocking_acquisitions_wait b sched t k l :
+  wfB b = true ->
+  let sc := bs_sc b in
+  let s := fst (run_sched (bs_wp b) (sc_env sc) (sc_nlocks sc) (binit b) sched) in
+  parked (get_thr (b_thr s) t) = Some (ORaw k l) -> rop_blocking k = true ->
+  exists c m f p, th_cur (get_thr (b_thr s) t) = Some (AAcquire c m f, p) /\ blocking_flavour f = true.
+Proof.
+  intros W sc s PK BL.
+  pose proof (reach_GI_dec (fun _ => rank_ok (sc_nlocks sc) (rk_of sc)) (fun _ => rank_okb (sc_nlocks sc) (rk_of sc))
+                           (fun _ H l => rank_okb_ok _ _ H l) false false b sched W) as G.
+  destruct (GI_blocked b _ _ _ _ _ t k l G PK BL) as [H [K [o [p [A [CU B]]]]]].
+  destruct o as [| | |c m f| | | | | | | | |]; cbn [blk_of] in B; try contradiction.
+  exists c, m, f, p. split; [exact CU|]. destruct (blocking_flavour f); [reflexivity|contradiction].
 Qed.
